@@ -37,7 +37,7 @@ def required_counters(tier):
 
 
 def generate(rng, tier, shard, nshards):
-    n = 1000 if tier == 'quick' else 30000
+    n = 2000 if tier == 'quick' else 40000
     for i in range(n):
         if rng.random() < 0.6:
             r = rng.random()
